@@ -408,7 +408,7 @@ eng_suite(void)
                                                         if (model == ACC && oc[0].status == IMB_STATUS_COMPLETED &&
                                                             oc[1].status == IMB_STATUS_COMPLETED) {
                                                                 if (oc[0].outlen != oc[1].outlen || memcmp(oc[0].out, oc[1].out, oc[0].outlen) ||
-                                                                    (IT->tag_len && memcmp(oc[0].tag, oc[1].tag, IT->tag_len))) {
+                                                                    (IT->tag_len && !IT->tag_unspec && memcmp(oc[0].tag, oc[1].tag, IT->tag_len))) {
                                                                         char key[200];
                                                                         snprintf(key, sizeof key, "C06|%s|burst-differs|%s|%s", vn, cipher_name(c),
                                                                                  hash_name(h));
